@@ -310,10 +310,11 @@ impl MultiState {
             reap_indices.push(index);
         }
 
-        // If this draw is due to a `println`, then we need to erase all the zombie lines.
-        // This is because `println` is supposed to appear above all other elements in the
-        // `MultiProgress`.
-        if extra_lines.is_some() {
+        // If this draw is due to a `println` (on the `MultiProgress` or, via `orphan_lines`, on one
+        // of its bars), then we need to erase all the zombie lines. This is because `println` is
+        // supposed to appear above all other elements in the `MultiProgress`.
+        let printing = extra_lines.is_some() || !self.orphan_lines.is_empty();
+        if printing {
             self.draw_target
                 .adjust_last_line_count(LineAdjust::Clear(self.zombie_lines_count));
             self.zombie_lines_count = VisualLines::default();
@@ -352,7 +353,7 @@ impl MultiState {
 
         // The zombie lines were drawn for the last time, so make `DrawTarget` forget about them
         // so they aren't cleared on next draw.
-        if extra_lines.is_none() {
+        if !printing {
             let kept = self
                 .draw_target
                 .adjust_last_line_count(LineAdjust::Keep(adjust));
